@@ -350,8 +350,11 @@ func report(out *checkOutcome, seed int, wall float64, repo string) int {
 	)
 	level := levelOf(prop)
 	cov := map[string]any{
-		"obligations":  nObl,
+		// obligations listed as open known findings are reported separately: they are generated
+		// and (still) fail, and are not part of what this check claims as proved
+		"obligations":  nObl - len(knownHit),
 		"discharged":   nDis,
+		"obligations_generated": nObl,
 		"checker_cmd":  "/verif/bin/gocv check --property " + prop + " --tier " + out.tier + " (go/ssa naive form -> SMT-LIB2; z3-new 5.1.0 / cvc5 1.0.3 / z3 4.8.12 raced per obligation)",
 		"trusted_base": []string{"gocv VC generator", "z3/cvc5", "go/ssa (x/tools v0.29.0)", "sync primitives", "module dependencies (libp2p host, crypto, gogo-protobuf, msgio)"},
 		"functions_under_contract": out.funcs,
@@ -363,7 +366,7 @@ func report(out *checkOutcome, seed int, wall float64, repo string) int {
 		"known_findings_reproduced": len(knownHit),
 		"baseline_missing": missing,
 		"audit_obligations": out.auditObls,
-		"evaluations": nObl,
+		"evaluations": nObl - len(knownHit),
 		"distinct_nontrivial": nDis,
 		"rule": "one evaluation = one proof obligation generated from the SSA of a function under contract; distinct by obligation name; non-trivial = discharged by an SMT solver (unsat)",
 		"explanation": "contract-based deductive verification: per-function verification conditions generated from go/ssa of the current working tree, contracts in /repo/*_verif.go, discharged by SMT",
